@@ -7,6 +7,7 @@ import IvpModel.Driver.RadauDrv
 import IvpModel.Driver.BdfDrv
 import IvpModel.Driver.ContDrv
 import IvpModel.Driver.BdfNumDrv
+import IvpModel.Driver.RadauNumDrv
 
 def main (args : List String) : IO UInt32 := do
   let stdin ← IO.getStdin
@@ -17,6 +18,9 @@ def main (args : List String) : IO UInt32 := do
       return 0
   | ["lu"] =>
       for o in Drv.Lu.run lines do IO.println o
+      return 0
+  | ["radaunum"] =>
+      for o in Drv.RadauN.run lines do IO.println o
       return 0
   | ["bdfnum"] =>
       for o in Drv.BdfN.run lines do IO.println o
